@@ -161,18 +161,36 @@ BlankText(b) ==
     [] b = "sp2" -> B(<<32, 32>>) [] b = "mix" -> B(<<32, 9>>)
 
 ---------------------------------------------------------------------------
-(* the forest *)
-Node(n, v, c) == [n |-> n, v |-> v, c |-> c]
+(* the forest; k = "s" section / "o" option is not visible in the node tree (an empty     *)
+(* section and an option without value are the same node) but decides the handler events *)
+Node(k, n, v, c) == [k |-> k, n |-> n, v |-> v, c |-> c]
 RECURSIVE Fold(_)
 Fold(st) ==
   IF Len(st) = 1 THEN st[1].k
   ELSE LET m == Len(st) IN
-       Fold(Append(SubSeq(st, 1, m - 2), [st[m - 1] EXCEPT !.k = Append(@, Node(st[m].n, <<>>, st[m].k))]))
+       Fold(Append(SubSeq(st, 1, m - 2), [st[m - 1] EXCEPT !.k = Append(@, Node("s", st[m].n, <<>>, st[m].k))]))
 Depth(st) == Len(st) - 1
 Push(st, name) == Append(st, [n |-> name, k |-> <<>>])
 Pop(st) == LET m == Len(st) IN
-  Append(SubSeq(st, 1, m - 2), [st[m - 1] EXCEPT !.k = Append(@, Node(st[m].n, <<>>, st[m].k))])
-AddLeaf(st, name, v) == [st EXCEPT ![Len(st)].k = Append(@, Node(name, v, <<>>))]
+  Append(SubSeq(st, 1, m - 2), [st[m - 1] EXCEPT !.k = Append(@, Node("s", st[m].n, <<>>, st[m].k))])
+AddLeaf(st, name, v) == [st EXCEPT ![Len(st)].k = Append(@, Node("o", name, v, <<>>))]
+
+RECURSIVE Proj(_)
+Proj(nodes) == [i \in DOMAIN nodes |-> [n |-> nodes[i].n, v |-> nodes[i].v, c |-> Proj(nodes[i].c)]]   \* what a node tree shows
+
+(* the events a path handler of mpt_parse_config sees for a complete document: section    *)
+(* start / option / section end with the element path; in the flat styles a section is    *)
+(* ended by the next header only                                                          *)
+RECURSIVE EvSeq(_, _, _, _)
+EvSeq(nodes, path, i, flat) ==
+  IF i > Len(nodes) THEN <<>>
+  ELSE LET x == nodes[i]
+           p == Append(path, x.n)
+       IN (IF x.k = "o"
+           THEN << [e |-> "opt", p |-> p, v |-> x.v] >>
+           ELSE << [e |-> "sect", p |-> p, v |-> <<>>] >> \o EvSeq(x.c, p, 1, flat)
+                \o (IF flat /\ i = Len(nodes) THEN <<>> ELSE << [e |-> "end", p |-> p, v |-> <<>>] >>))
+          \o EvSeq(nodes, path, i + 1, flat)
 
 F == cfg.F
 A == cfg.A
@@ -187,7 +205,7 @@ Closers(st) == IF Nesting THEN Rep(C1(F.se), Depth(st)) ELSE <<>>
 Case(txt, st) ==
   obs' = [a |-> "parse",
           arg |-> [fmt |-> B(cfg.fmt), acc |-> B(cfg.acc), text |-> txt],
-          exp |-> [ret |-> "ok", tree |-> Fold(st), links |-> 0]]
+          exp |-> [ret |-> "ok", tree |-> Proj(Fold(st)), links |-> 0, ev |-> EvSeq(Fold(st), <<>>, 1, Flat)]]
 
 ---------------------------------------------------------------------------
 (* actions *)
@@ -257,7 +275,7 @@ Quotes == {0} \cup F.esc
 Init ==
   /\ \E c \in Configs : cfg = [fmt |-> c.fmt, acc |-> c.acc, F |-> FormatOf(c.fmt), A |-> AcceptOf(c.acc)]
   /\ text = <<>> /\ stack = << [n |-> <<>>, k |-> <<>>] >> /\ nn = 0
-  /\ obs = [a |-> "none", arg |-> [x |-> 0], exp |-> [ret |-> "ok", tree |-> <<>>, links |-> 0]]
+  /\ obs = [a |-> "none", arg |-> [x |-> 0], exp |-> [ret |-> "ok", tree |-> <<>>, links |-> 0, ev |-> <<>>]]
 
 Next ==
   \/ \E name \in OptNames, v \in Values, q \in Quotes, d \in Decos :
